@@ -38,6 +38,10 @@ func (e *Engine) externalModel(st *State, full string, fn *types.Func, args []Va
 			v := e.asInt(args[2], call)
 			e.oblige(st, "bounds", e.slug(call), Ge(sv.ln, I(int64(n))), call.Pos(), nil)
 			arr := Sel(st.Mem, sv.blk)
+			// the n bytes are introduced as the unique digits of v in base 256 (exists for 0 <= v < 256^n):
+			// linear facts instead of div/mod terms
+			sum := I(0)
+			var facts []T
 			for i := 0; i < n; i++ {
 				var shift uint
 				if big {
@@ -45,8 +49,19 @@ func (e *Engine) externalModel(st *State, full string, fn *types.Func, args []Va
 				} else {
 					shift = uint(8 * i)
 				}
-				b := Mod(Div(v, IBig(pow2(shift))), I(256))
+				var b T
+				if cv, ok := constVal(v); ok {
+					b = IBig(new(bigInt).Mod(new(bigInt).Rsh(cv, shift), pow2(8)))
+				} else {
+					b = e.fresh("byte", SInt)
+					facts = append(facts, And(Le(I(0), b), Le(b, I(255))))
+				}
+				sum = Add(sum, Mul(b, IBig(pow2(shift))))
 				arr = Sto(arr, Add(sv.off, I(int64(i))), b)
+			}
+			if len(facts) > 0 {
+				facts = append(facts, Eq(sum, v))
+				e.assume(st, And(facts...), "base-256 digits of a fixed-width unsigned value")
 			}
 			st.Mem = e.name("Mem", Sto(st.Mem, sv.blk, arr))
 			return TupleV{}, true
